@@ -209,6 +209,10 @@ func (s *Sim) takeHead(why string) bool {
 	}
 	m := s.dist[0]
 	s.dist = s.dist[1:]
+	if !passes(s.cfg.OutF, m) {
+		s.emit("ESkip %d", w) // rejected by the output filter: consumed, not dispatched
+		return true
+	}
 	s.emit("ETake %d", w)
 	s.startDispatch(w, m)
 	return true
@@ -328,11 +332,19 @@ func (s *Sim) pendingFor(i int) bool {
 }
 
 func (s *Sim) push(m int, res string) {
+	if res == "filtered" {
+		s.emit("ELoopFilter")
+		return
+	}
 	if s.cfg.Backend == "chan" {
 		switch res {
 		case "ok":
 			w := s.freeWorker("channel rendezvous")
 			if w < 0 {
+				return
+			}
+			if !passes(s.cfg.OutF, m) {
+				s.emit("ESkip %d", w)
 				return
 			}
 			s.emit("ETake %d", w)
